@@ -133,3 +133,16 @@ Proof.
   rewrite Forall_forall in H1. exact (H1 b Hb x Hx Hxb).
 Qed.
 
+
+Lemma NoDup_app_l : forall A (a b : list A), NoDup (a ++ b) -> NoDup a.
+Proof.
+  induction a as [|x a IH]; simpl; intros b H; [constructor|].
+  inversion H; subst. constructor.
+  - intro Hin. apply H2. apply in_or_app. now left.
+  - eapply IH; eauto.
+Qed.
+
+Lemma NoDup_app_r : forall A (a b : list A), NoDup (a ++ b) -> NoDup b.
+Proof.
+  induction a as [|x a IH]; simpl; intros b H; auto. inversion H; subst. auto.
+Qed.
